@@ -43,6 +43,26 @@ PAIRS = {
     'u_common::BytesRef::try_from': ['k_bytesref_try_from'],
     'u_common::DynSizedStructure::ref_from_bytes': ['k_ref_from_slice'],
     'u_common::DynSizedStructure::ref_from_slice': ['k_ref_from_slice'],
+    'u_common::TagIter::next': ['k_tagiter_clone_history'],
+    'u_mb2_core::BootInformation::load': ['k_load_accepts_exactly'],
+    'u_mb2_core::BootInformation::has_valid_end_tag': ['k_load_accepts_exactly'],
+    'u_mb2_core::BootInformationHeader::payload_len': ['k_load_accepts_exactly'],
+    'u_mb2_core::BytesRef::try_from': ['k_load_accepts_exactly', 'k_bytesref_try_from'],
+    'u_mb2_core::TagIter::next': ['k_tags_walk'],
+    'u_mb2_core::TagHeader::payload_len': ['k_tags_walk'],
+    'u_mb2_core::BootInformation::tags': ['k_tags_walk'],
+    'u_hdr_core::Multiboot2Header::load': ['k_mb2hdr_load', 'k_mb2hdr_load_short'],
+    'u_hdr_core::Multiboot2BasicHeader::calc_checksum': ['k_mb2hdr_checksum_law_all'],
+    'u_hdr_core::Multiboot2BasicHeader::verify_checksum': ['k_mb2hdr_verify_checksum_iff_all'],
+    'u_hdr_core::Multiboot2BasicHeader::payload_len': ['k_mb2hdr_load_short'],
+    'u_hdr_core::HeaderTagHeader::payload_len': ['k_hdr_tag_header_payload_len_all'],
+    'u_hdr_core::Multiboot2Header::iter': ['k_mb2hdr_iter_32'],
+    'u_mb2_efi::EFIMemoryAreaIter::new': ['k_efi_iter_any'],
+    'u_mb2_efi::EFIMemoryAreaIter::next': ['k_efi_iter_wellformed'],
+    'u_mb2_efi::EFIMemoryAreaIter::len': ['k_efi_iter_wellformed'],
+    'u_mb2_efi::EFIMemoryMapTag::memory_areas': ['k_efi_iter_any'],
+    'u_mb2_fb::FramebufferTag::buffer_type': ['k_fb_indexed_palette_inside_tag', 'k_fb_type_all_bytes'],
+    'u_mb2_fb::FramebufferTypeId::try_from': ['k_fb_type_all_bytes'],
 }
 
 COMMON_V_MEM = ['DynSizedStructure::ref_from_bytes', 'DynSizedStructure::ref_from_slice', 'DynSizedStructure::ref_from_ptr',
@@ -160,6 +180,9 @@ THOROUGH_ONLY = {
 def _merge(fragment_harnesses):
     for name, spec in fragment_harnesses.items():
         spec = dict(spec)
+        spec['fn'] = name
+        if name in HARNESSES and HARNESSES[name]['crate'] != spec['crate']:
+            name = f"{name}@{spec['crate']}"      # same fn name in two crates: keep both
         if name in THOROUGH_ONLY:
             spec['tier'] = 'thorough'
         HARNESSES[name] = spec
